@@ -172,9 +172,13 @@ def mon_c01(case, obs, prefix):
                         under[x["fseid"]] = (m.get("nid") or {}).get("v")
             elif m["k"] == "mod" and (m.get("nid") or {}).get("v") is not None and live(prev, m["seid"]) is not None:
                 obj = live(prev, m["seid"])["node"]
-                for idx, s_ in enumerate(prev.get("slots") or []):
-                    if s_ is not None and s_["node"] == obj:
-                        under[idx + 1] = m["nid"]["v"]
+                other = (prev.get("rnodes") or {}).get(peer_ip(prefix, m["nid"]["v"]))
+                if other is not None and other != obj:
+                    under[m["seid"]] = m["nid"]["v"]        # the new id has its own association: only this session moves
+                else:
+                    for idx, s_ in enumerate(prev.get("slots") or []):
+                        if s_ is not None and s_["node"] == obj:
+                            under[idx + 1] = m["nid"]["v"]
             elif m["k"] == "asr" and (m.get("nid") or {}).get("v") is not None:
                 # re-association ends every session established under that node id: none may stay, none of its rules may stay
                 nid = m["nid"]["v"]
@@ -341,11 +345,16 @@ def mon_c05(case, obs, prefix):
             elif m["k"] in ("mod", "del"):
                 addressed = {m["seid"]}
                 if m["k"] == "mod" and (m.get("nid") or {}).get("v") is not None and live(prev, m["seid"]) is not None:
-                    # takeover: the node object is re-keyed; all its sessions are from now on under the new id
+                    # takeover: if the new id has an association of its own, this session moves to it; otherwise the
+                    # session's node is re-keyed and all its sessions are from now on under the new id
                     obj = live(prev, m["seid"])["node"]
-                    for idx, s in enumerate(pslots):
-                        if s is not None and s["node"] == obj:
-                            under[idx + 1] = m["nid"]["v"]
+                    other = (prev.get("rnodes") or {}).get(peer_ip(prefix, m["nid"]["v"]))
+                    if other is not None and other != obj:
+                        under[m["seid"]] = m["nid"]["v"]
+                    else:
+                        for idx, s in enumerate(pslots):
+                            if s is not None and s["node"] == obj:
+                                under[idx + 1] = m["nid"]["v"]
             elif m["k"] == "asr":
                 nid = (m.get("nid") or {}).get("v")
                 if nid is not None:
@@ -940,7 +949,7 @@ def _rc(peer, seq, msg, **kw):
 
 
 def directed_c05(rnd):
-    """the recorded finding takeover-collision, reproduced on every run (printed as KNOWN-FINDING)"""
+    """the history of the former finding takeover-collision (fixed in 8b22329): a regression case run first"""
     return [{"maxretrans": 1, "txseq0": 0, "events": [
         _rc(0, 1, {"k": "asr", "nid": {"v": 0}}), _rc(1, 1, {"k": "asr", "nid": {"v": 1}}),
         _rc(0, 2, {"k": "est", "nid": {"v": 0}, "fseid": {"v": 10}, "ops": {"cFAR": [1]}}),
